@@ -65,6 +65,15 @@ class UnitCheck:
             cond = fn.term_cond(b)
             skip = None
             if cond is not None and len(succ) == 2:
+                from . import dom
+                for idx_, pol_ in ((0, True), (1, False)):
+                    try:
+                        ats = [dom.norm(fn, a_, p_) for a_, p_ in dom.atoms(fn, cond, pol_, inline=False, cond_expand=False)]
+                    except Exception:
+                        ats = []
+                    if any(f[0] == self.font_param and f[1] == '==' and f[2] == '0' for f in ats):
+                        skip = idx_             # the edge on which font is null
+            if cond is not None and len(succ) == 2 and skip is None:
                 c = fn.strip(cond)
                 neg = False
                 while c['k'] == 'UnaryOperator' and c['op'] == '!':
@@ -198,6 +207,10 @@ class UnitCheck:
                     self._flag(e, 'a %s value is returned where the caller gets %s' % (u, self.ret_unit))
             return
         if k == 'ConditionalOperator':
+            # only the arm evaluated on this path has a value
+            if isinstance(c[1], int) and isinstance(c[2], int) and (c[1] in val) != (c[2] in val):
+                val[i] = self._u(c[1] if c[1] in val else c[2], val)
+                return
             a, b = self._u(c[1], val), self._u(c[2], val)
             if a in (DU, PX) and b in (DU, PX) and a != b:
                 self._flag(e, 'the two arms of ?: have units %s and %s' % (a, b))
